@@ -165,8 +165,57 @@ func containerValue(kind, class, cont string) reflect.Value {
 		s.Index(0).Set(mkStruct())
 		s.Index(1).Set(mkStruct())
 		return s
+	case "hidden":
+		return hiddenSlice(kind, leaf)
+	case "zerow":
+		return reflect.ValueOf([]struct{}{{}, {}, {}})
+	case "zerowh":
+		return reflect.ValueOf([]onlyHidden{{}, {}})
 	}
 	return leaf
+}
+
+// hid is an element type with an unexported field: the writer skips it, so an element is as small on the wire as
+// its exported field alone while it is much larger in memory.
+type hid[T any] struct {
+	V      T
+	hidden [4]int64
+}
+type onlyHidden struct{ hidden int64 }
+
+func hidOf[T any](leaf reflect.Value) reflect.Value {
+	x := leaf.Interface().(T)
+	return reflect.ValueOf([]hid[T]{{V: x}, {V: x}})
+}
+
+func hiddenSlice(kind string, leaf reflect.Value) reflect.Value {
+	switch kind {
+	case "u8":
+		return hidOf[uint8](leaf)
+	case "i8":
+		return hidOf[int8](leaf)
+	case "u16":
+		return hidOf[uint16](leaf)
+	case "i16":
+		return hidOf[int16](leaf)
+	case "u32":
+		return hidOf[uint32](leaf)
+	case "i32":
+		return hidOf[int32](leaf)
+	case "u64":
+		return hidOf[uint64](leaf)
+	case "i64":
+		return hidOf[int64](leaf)
+	case "f32":
+		return hidOf[float32](leaf)
+	case "f64":
+		return hidOf[float64](leaf)
+	case "bool":
+		return hidOf[bool](leaf)
+	case "string":
+		return hidOf[string](leaf)
+	}
+	return hidOf[[]byte](leaf)
 }
 
 // semEqual is the semantic equality the property speaks about: nil and empty slices/maps are the same,
